@@ -81,6 +81,7 @@ def profile(name):
         p['p_flag_gate'] = 0.3
     elif name == 'resources':     # C11 / C10
         p['stage_w'].update({'processor': 9, 'group': 1.5, 'handler': 1, 'buffer': 2, 'res_fanout': 2.5, 'res_series': 2.0})
+        p['p_big_pool'] = 0.15
         p['p_resources'] = 1.0
         p['n_resources'] = (1, 3)
         p['res_cap'] = (1, 3)
@@ -416,6 +417,9 @@ class Gen:
             if rng.random() < 0.15:
                 # a pool whose capacity schedule starts at 0: it does not exist until its first rise
                 self.resources[rng.choice(sorted(self.resources))] = 0
+            if rng.random() < p.get('p_big_pool', 0):
+                # an unlimited pool, or one so large that a float cannot tell capacity from capacity - 1
+                self.resources[rng.choice(sorted(self.resources))] = rng.choice([float('inf'), 1e16, 2.0 ** 60])
         for _ in range(rng.randint(*p['n_sources'])):
             ct = rng.choice(p['src_cts'])
             budget = rng.choice(p['budget'])
